@@ -172,7 +172,17 @@ func findImplPair(r *core.Rand, items []*m.Item, needArgs bool) (holder *m.Item,
 	return c.holder, c.impl, c.intf, c.rf, c.ff
 }
 
-func userDirective(items []*m.Item) []*m.Item { return itemsOfKind(items, false, "directive") }
+// userDirective: the directive definitions with names of the user's own (a specified directive declared again is not one:
+// the loader lets it be declared any number of times).
+func userDirective(items []*m.Item) []*m.Item {
+	var out []*m.Item
+	for _, it := range itemsOfKind(items, false, "directive") {
+		if !builtinDirectiveNames[it.Name] {
+			out = append(out, it)
+		}
+	}
+	return out
+}
 
 // Faults is the catalogue: one injector per rule the loader is meant to enforce.
 var Faults = []Fault{
@@ -381,9 +391,19 @@ var Faults = []Fault{
 		if holder == nil {
 			return nil, nil, false
 		}
+		// one required field goes, sometimes a second one too (which of them the error names must be a function of the text)
+		drop := map[string]bool{rf.Name: true}
+		if r.Chance(1, 3) {
+			for _, g := range intf.Fields {
+				if g.Name != rf.Name {
+					drop[g.Name] = true
+					break
+				}
+			}
+		}
 		var keep []*m.FieldDef
 		for _, f := range holder.Fields {
-			if f.Name != rf.Name {
+			if !drop[f.Name] {
 				keep = append(keep, f)
 			}
 		}
@@ -496,12 +516,14 @@ var Faults = []Fault{
 			if it.Kind != "type" && it.Kind != "interface" {
 				continue
 			}
-			for _, in := range it.Interfaces {
+			for _, ii := range r.Perm(len(it.Interfaces)) {
+				in := it.Interfaces[ii]
 				id := mg.Types[in]
 				if id == nil {
 					continue
 				}
-				for _, tr := range id.Interfaces {
+				for _, ti := range r.Perm(len(id.Interfaces)) { // any of the parents, not always the first
+					tr := id.Interfaces[ti]
 					// drop tr from every item of this type
 					d := mg.Types[it.Name]
 					for _, di := range d.Items {
@@ -533,7 +555,8 @@ var Faults = []Fault{
 	}},
 	{"reserved-name(type)", func(r *core.Rand, items []*m.Item) ([]*m.Item, []string, bool) {
 		k := r.Pick("scalar", "type", "enum", "input", "interface", "union")
-		it := &m.Item{Kind: k, Name: "__Mine"}
+		name := r.Pick("__Mine", "__Mine", "__", "__x", "___")
+		it := &m.Item{Kind: k, Name: name}
 		switch k {
 		case "type", "interface":
 			it.Fields = []*m.FieldDef{{Name: "a", Type: &m.Type{Name: "Int"}}}
@@ -552,14 +575,14 @@ var Faults = []Fault{
 			// the reserved name comes into being through an extension only (no base definition anywhere)
 			it.Extend = true
 		}
-		return append(items, it), []string{"__Mine"}, true
+		return append(items, it), []string{name}, true
 	}},
 	{"reserved-name(field)", func(r *core.Rand, items []*m.Item) ([]*m.Item, []string, bool) {
 		it := pickItem(r, withFields(items, "type", "interface"))
 		if it == nil {
 			return nil, nil, false
 		}
-		it.Fields = append(it.Fields, &m.FieldDef{Name: "__mine", Type: &m.Type{Name: "Int"}})
+		it.Fields = append(it.Fields, &m.FieldDef{Name: r.Pick("__mine", "__", "__f"), Type: &m.Type{Name: "Int"}})
 		return items, []string{it.Name}, true
 	}},
 	{"reserved-name(input-field)", func(r *core.Rand, items []*m.Item) ([]*m.Item, []string, bool) {
@@ -567,7 +590,7 @@ var Faults = []Fault{
 		if it == nil {
 			return nil, nil, false
 		}
-		it.Fields = append(it.Fields, &m.FieldDef{Name: "__mine", Type: &m.Type{Name: "Int"}})
+		it.Fields = append(it.Fields, &m.FieldDef{Name: r.Pick("__mine", "__", "__f"), Type: &m.Type{Name: "Int"}})
 		return items, []string{it.Name}, true
 	}},
 	{"reserved-name(argument)", func(r *core.Rand, items []*m.Item) ([]*m.Item, []string, bool) {
@@ -576,7 +599,7 @@ var Faults = []Fault{
 			return nil, nil, false
 		}
 		f := it.Fields[r.Intn(len(it.Fields))]
-		f.Args = append(f.Args, &m.ArgDef{Name: "__mine", Type: &m.Type{Name: "Int"}})
+		f.Args = append(f.Args, &m.ArgDef{Name: r.Pick("__mine", "__", "__a"), Type: &m.Type{Name: "Int"}})
 		return items, []string{it.Name}, true
 	}},
 	{"reserved-name(directive)", func(r *core.Rand, items []*m.Item) ([]*m.Item, []string, bool) {
@@ -587,7 +610,7 @@ var Faults = []Fault{
 		if it == nil {
 			return nil, nil, false
 		}
-		it.Args = append(it.Args, &m.ArgDef{Name: "__mine", Type: &m.Type{Name: "Int"}})
+		it.Args = append(it.Args, &m.ArgDef{Name: r.Pick("__mine", "__", "__a"), Type: &m.Type{Name: "Int"}})
 		return items, []string{"@" + it.Name}, true
 	}},
 	{"directive-location", func(r *core.Rand, items []*m.Item) ([]*m.Item, []string, bool) {
